@@ -42,3 +42,30 @@ package chancloser
 //@   nowrap
 //@   modifies nothing
 //@   replay scalar
+//@
+//@ func (c *ChanCloser) proposeCloseSigned
+//@   props C17
+//@   requires c != nil
+//@   loop * havoc
+//@   site call CreateCloseProposal: assert arg(1) == fee && arg(2) == c.localDeliveryScript && arg(3) == c.remoteDeliveryScript
+//@   site call NewClosingSigned: assert arg(1) == fee && retn(CreateCloseProposal, 3) == nil
+//@   site store ChanCloser.lastFeeProposal: assert value == fee && retn(CreateCloseProposal, 3) == nil
+//@   site mapupdate priorFeeOffers: assert arg(key) == fee && arg(val) == ret(NewClosingSigned)
+//@   ensures result1 == nil ==> has(c.priorFeeOffers, fee) && c.lastFeeProposal == fee
+//@
+//@ func (c *ChanCloser) ReceiveClosingSigned
+//@   props C17
+//@   requires c != nil
+//@   loop * havoc
+//@   site call IsInitiator nth 1: assert remoteProposedFee == entry(msg).FeeSatoshis
+//@   site call calcCompromiseFee: domain 0 <= arg(1) && arg(1) <= 2100000000000000 && 0 <= arg(2) && arg(2) <= 2100000000000000 &&
+//@        0 <= arg(3) && arg(3) <= 2100000000000000
+//@   site call calcCompromiseFee as inputs: assert arg(1) == c.idealFeeSat && arg(2) == c.lastFeeProposal && arg(3) == remoteProposedFee &&
+//@        !has(c.priorFeeOffers, remoteProposedFee)
+//@   site call proposeCloseSigned nth 0: assert arg(1) == remoteProposedFee
+//@   site call proposeCloseSigned nth 1: assert arg(1) == ret(calcCompromiseFee) &&
+//@        (ret(IsInitiator, 1) ==> ret(calcCompromiseFee) <= c.maxFee)
+//@   site call CompleteCooperativeClose as scripts: assert arg(3) == c.localDeliveryScript && arg(4) == c.remoteDeliveryScript
+//@   site call CompleteCooperativeClose as fee: assert arg(5) == remoteProposedFee
+//@   site call ToSignature nth 0: assert has(c.priorFeeOffers, remoteProposedFee)
+//@   site call CombineClosingOpts: assert has(c.priorFeeOffers, remoteProposedFee)
